@@ -29,6 +29,11 @@ import (
 
 const (
 	defaultCleanerInterval = time.Second * 10
+
+	// minimumSize is the documented minimum (and default) size of a Cache.
+	// Smaller sizes would make the per-shard limit of the underlying map
+	// zero, which means "no limit".
+	minimumSize = 1024
 )
 
 type Key interface {
@@ -55,7 +60,9 @@ type Opts struct {
 }
 
 func (opts *Opts) init() {
-	utils.SetDefaultNum(&opts.Size, 1024)
+	if opts.Size < minimumSize {
+		opts.Size = minimumSize
+	}
 	utils.SetDefaultNum(&opts.CleanerInterval, defaultCleanerInterval)
 }
 
